@@ -159,7 +159,7 @@ Section Euclid.
 
   (* ---------------- the configuration ---------------- *)
   Variables (N D d : nat) (lm : list nat) (X : mat F) (dist : mat F).
-  Variables (V : mat F) (lam s : vec F).
+  Variables (V : mat F) (lam s : vec F) (keep : nat -> bool).
   Let L := length lm.
   Let XL : mat F := fun i k => X (lmk lm i) k.
   Let Z : mat F := lm_centered L XL.
@@ -174,8 +174,10 @@ Section Euclid.
   (* eigen / sqrt oracle contract for the d selected pairs of B *)
   Hypothesis HBV : meq L d (mmul L B V) (mmul d V (mdiag lam)).
   Hypothesis Hrank : lm_rank_d L d B V lam.
-  Hypothesis Hlam : forall c, c < d -> lam c <> 0.
   Hypothesis Hs : forall c, c < d -> s c * s c = lam c.
+  (* a kept column has a non-zero eigenvalue; a dropped one (null eigenvalue) has s = sqrt 0 = 0 *)
+  Hypothesis Hkeep : forall c, c < d -> keep c = true -> lam c <> 0.
+  Hypothesis Hdrop : forall c, c < d -> keep c = false -> s c = 0.
 
   Lemma lmk_lt i : i < L -> lmk lm i < N.
   Proof.
@@ -210,9 +212,9 @@ Section Euclid.
     unfold Z, lm_centered. rewrite sumn_sub, sumn_const. unfold colmean, colsum. field. exact HL.
   Qed.
 
-  Lemma V_col_sum c : c < d -> sumn L (fun t => V t c) = 0.
+  Lemma V_col_sum c : c < d -> lam c <> 0 -> sumn L (fun t => V t c) = 0.
   Proof.
-    intros Hc. apply (fcancel_l (lam c)); [apply Hlam; assumption|].
+    intros Hc Hl. apply (fcancel_l (lam c)); [assumption|].
     rewrite <- sumn_mul_l.
     rewrite (sumn_ext L _ (fun t => sumn L (fun j => B t j * V j c))).
     2:{ intros t Ht. rewrite BV_entry by assumption. ring. }
@@ -255,11 +257,11 @@ Section Euclid.
 
   (* the triangulated row of a sample whose centred position is  sum_i coef_i Z_i *)
   Lemma tri_row_of_span a (coef : vec F) c :
-    a < N -> c < d ->
+    a < N -> c < d -> lam c <> 0 ->
     (forall k, k < D -> X a k - colmean L XL k = sumn L (fun i => coef i * Z i k)) ->
     tri_spec_row L lm dist mu (scale_by V s) lam a c = s c * sumn L (fun i => coef i * V i c).
   Proof.
-    intros Ha Hc Hspan. unfold tri_spec_row.
+    intros Ha Hc Hl Hspan. unfold tri_spec_row.
     set (u := fun k => X a k - colmean L XL k).
     set (Q := sumn L (fun i => dot D (Z i) (Z i)) / of_nat L).
     (* u . Z_t = sum_i coef_i B_it *)
@@ -282,7 +284,7 @@ Section Euclid.
       rewrite sumn_swap. rewrite <- sumn_mul_l. apply sumn_ext. intros i Hi.
       rewrite sumn_mul_l, BV_entry by assumption. ring. }
     rewrite E. unfold lm_neg_half, two in *. field.
-    repeat split; first [apply Hlam; assumption | exact H2].
+    repeat split; first [assumption | exact H2].
   Qed.
 
   (* the quadratic form: e^T V diag(lam) V^T e = |Z^T e|^2 *)
@@ -322,7 +324,7 @@ Section Euclid.
     landmarks_span ->
     (forall i c, i < L -> c < d -> y (lmk lm i) c = scale_by V s i c) ->
     (forall a c, a < N -> ~ In a lm -> c < d ->
-        y a c = tri_spec_row L lm dist mu (scale_by V s) lam a c) ->
+        y a c = if keep c then tri_spec_row L lm dist mu (scale_by V s) lam a c else 0) ->
     forall a b, a < N -> b < N ->
       sumn d (fun c => (y a c - y b c) * (y a c - y b c)) = dist a b * dist a b.
   Proof.
@@ -340,7 +342,9 @@ Section Euclid.
           change a with a in *. rewrite <- Hai. fold (lmk lm i). rewrite Hyl by assumption.
           unfold scale_by. ring.
       - destruct (Hspan a Ha Hnin) as [coef Hco]. exists coef. split; [exact Hco|].
-        intros c Hc. rewrite Hyt by assumption. apply tri_row_of_span; assumption. }
+        intros c Hc. rewrite Hyt by assumption. destruct (keep c) eqn:Ek.
+        + apply tri_row_of_span; try assumption. apply Hkeep; assumption.
+        + rewrite (Hdrop c Hc Ek). ring. }
     intros a b Ha Hb.
     destruct (Hcoef a Ha) as [ca [Hxa Hya]]. destruct (Hcoef b Hb) as [cb [Hxb Hyb]].
     rewrite Hdist by assumption. unfold lm_sqdist.
